@@ -318,6 +318,12 @@ def run(ctx):
         for _ in range(per * 8 if feat == "combo" else per):
             members = tweak_members(rng, gen_logical(rng), feat)
             lay = gen_layout(rng, members, feat)
+            if not lay["emptyfile_vector"]:
+                # without an EmptyFile vector an entry without a stream and without attributes IS a directory as far as the
+                # format can tell: the logical archive this layout expresses says so too
+                for m in members:
+                    if m["kind"] == "emptyfile" and m["attr"] is None:
+                        m["kind"] = "dir"
             try:
                 data = refwriter.build(members, lay, rng)
             except Exception as e:  # noqa
